@@ -68,7 +68,9 @@ def gen_actor(rng, max_iters=120, dims=(1, 2, 3, 4, 5), families=None, shipped_p
             spec["bounds_type"] = btype
     # ways user code writes the same configuration (none of them changes what is configured)
     u = rng.random()
-    if u < 0.06:
+    if u < 0.03:
+        spec["params_set"] = "positional"      # SolverParameters(eps, r, itersLimit, evolventDensity) without keywords
+    elif u < 0.06:
         spec["params_set"] = "attr"            # SolverParameters() first, public fields assigned afterwards
     elif u < 0.10:
         spec["density_type"] = rng.choice(["np.int64", "np.int32"])     # density taken from a numpy array / rng.integers
